@@ -27,6 +27,7 @@ import LibfiberVerif.Model.Signal
 import LibfiberVerif.Model.MultiSignal
 import LibfiberVerif.Model.Chan
 import LibfiberVerif.Model.MultiChan
+import LibfiberVerif.Model.IoShim
 
 namespace LibfiberVerif
 
@@ -50,7 +51,8 @@ def registry : List (String × (List String → IO UInt32)) := [
   ("WorkQueue", WorkQueue.drive),
   ("Wsd", Wsd.drive),
   ("Signal", Signal.drive), ("MultiSignal", MultiSignal.drive),
-  ("Chan", Chan.drive), ("MultiChan", MultiChan.drive)
+  ("Chan", Chan.drive), ("MultiChan", MultiChan.drive),
+  ("IoShim", IoShim.drive)
 ]
 
 end LibfiberVerif
